@@ -96,6 +96,10 @@ def check(ctx):
                         if st[0] == "A" and not st[1]["p"] and st[1]["l"] == 0 and st[2][0] == "Use" and st[2][1][0] == "k": vals.add(st[2][1][1].get("int"))
                 return vals
             ok = ret_const(ok_t) == {1} and ret_const(err_t) == {0}
+        else:
+            # `cas(..).is_ok()` answered directly
+            r0_ = strip_casts(d2.local(0))
+            ok = r0_[0] == "call" and r0_[1].endswith("Result::is_ok") and len(r0_[2]) == 1 and any(isinstance(x_, tuple) and x_[:1] == ("atomic",) and "compare_exchange" in x_[1] for x_ in C01._walk_all(r0_[2][0]))
         ctx.ob("R16.1", f"{kk}|answers-cas-outcome", ok, f"{b2.f['file']}:{b2.f['line']}", "returns true on the CAS's Ok edge and false on its Err edge")
     # full-sync ring: summary held iff Some
     k = R.FSM + "::leak_slot_internal"
